@@ -156,7 +156,18 @@ func (a *Adv) Step() string {
 	case 0: // application message at the peer's own next number (honest)
 		id := p.NextID()
 		label = fmt.Sprintf("app %s seq=%d (T=%d)", id, p.OutSeq, T)
-		a.sendApp(id, MsgOpt{})
+		o := MsgOpt{}
+		if a.o.AppTypes && ch.Chance("numberless", 1, 8) {
+			// a message whose MsgSeqNum is missing or unreadable carries no number: whatever the reaction,
+			// it is not the expected one (the peer does not use up a number of its own for it either)
+			o = MsgOpt{Seq: p.OutSeq, NoSeq: true}
+			if ch.Chance("garblednumber", 1, 2) {
+				o.NoSeq, o.SeqLiteral = false, []string{"1x", "abc"}[ch.Choose("badseq", 2)]
+			}
+			label += " without a usable MsgSeqNum"
+			env.Stat("fault_numberless_message")
+		}
+		a.sendApp(id, o)
 	case 1: // application message too high
 		k := 1 + ch.Choose("skip", 5)
 		p.OutSeq += k
@@ -201,7 +212,13 @@ func (a *Adv) Step() string {
 		env.Stat("fault_possdup")
 	case 4: // heartbeat, honest number
 		label = fmt.Sprintf("heartbeat seq=%d (T=%d)", p.OutSeq, T)
-		a.send("0", nil, MsgOpt{})
+		o := MsgOpt{}
+		if a.o.AppTypes && ch.Chance("numberless", 1, 6) {
+			o = MsgOpt{Seq: p.OutSeq, NoSeq: true}
+			label += " without MsgSeqNum"
+			env.Stat("fault_numberless_message")
+		}
+		a.send("0", nil, o)
 	case 5: // test request
 		id := "TR" + p.NextID()
 		label = fmt.Sprintf("testrequest %s seq=%d (T=%d)", id, p.OutSeq, T)
